@@ -984,6 +984,48 @@ fn vp_native_redirect_across_no_proxy_boundary_body() {
     println!("VP-NATIVE redirect_across_no_proxy_boundary cases=2");
 }
 
+/// C11: the proxy decision is taken for the URL of *every* hop: redirect chains that cross the no-proxy boundary in both directions
+/// and stay on either side of it; only the route (who saw which request) is looked at
+#[test]
+fn vp_native_proxy_choice_on_every_hop() { crate::verif_native_watchdog::watched(vp_native_proxy_choice_on_every_hop_body); }
+fn vp_native_proxy_choice_on_every_hop_body() {
+    let mut cases = 0u64;
+    // hosts: "127.0.0.1" (origin, reached directly when exempt) and names that only the proxy can serve
+    // a chain is a list of hops (true = a host the no-proxy list exempts); every hop but the last answers 302 to the next
+    let chains: [&[bool]; 10] = [&[false, true], &[true, false], &[false, false], &[true, true], &[false, true, false], &[true, false, true], &[false, false, true], &[true, true, false], &[false, true, true, false], &[true]];
+    for chain in chains { for entry in ["127.0.0.1", "127.0.0.1, other.test", "OTHER.test,127.0.0.1"] {
+        let plog = Arc::new(Mutex::new(Vec::new())); let olog = Arc::new(Mutex::new(Vec::new()));
+        let next_of = std::sync::Arc::new(Mutex::new(Vec::<String>::new()));   // hop index -> Location of its answer ("" = final)
+        let n1 = next_of.clone(); let n2 = next_of.clone();
+        let answer = |line: &str, table: &Vec<String>| -> Vec<u8> {
+            let k: usize = line.split("/hop").nth(1).and_then(|t| t.split(|c: char| !c.is_ascii_digit()).next()).and_then(|d| d.parse().ok()).unwrap_or(99);
+            match table.get(k) { Some(l) if !l.is_empty() => resp(302, Some(l), ""), Some(_) => resp(200, None, "end"), None => resp(404, None, "") }
+        };
+        let origin = serve(olog.clone(), move |line, _| answer(line, &n1.lock().unwrap()));
+        let proxy = serve(plog.clone(), move |line, _| answer(line, &n2.lock().unwrap()));
+        let url_of = |k: usize| if chain[k] { format!("http://127.0.0.1:{}/hop{}", origin, k) } else { format!("http://far{}.test/hop{}", k, k) };
+        { let mut t = next_of.lock().unwrap(); for k in 0..chain.len() { t.push(if k + 1 < chain.len() { url_of(k + 1) } else { String::new() }); } }
+        let mut b = crate::ProxySettings::builder().http_proxy(Url::parse(&format!("http://127.0.0.1:{}", proxy)).unwrap());
+        for e in entry.split(',') { b = b.add_no_proxy_host(e.trim()); }
+        let mut sess = crate::Session::new(); sess.proxy_settings(b.build());
+        let r = sess.get(url_of(0)).send();
+        cases += 1; crate::verif_native_watchdog::progress();
+        let want_proxy = chain.iter().filter(|e| !**e).count(); let want_direct = chain.len() - want_proxy;
+        settle(&plog, want_proxy); settle(&olog, want_direct);
+        let (p, o) = (plog.lock().unwrap().clone(), olog.lock().unwrap().clone());
+        let ctx = format!("chain of hops {:?} (true = host on the no-proxy list {:?})", chain, entry);
+        let via_proxy: Vec<String> = p.iter().map(|x| x.first_line.clone()).collect(); let direct: Vec<String> = o.iter().map(|x| x.first_line.clone()).collect();
+        for k in 0..chain.len() {
+            let tag = format!("/hop{} ", k);
+            let (at_proxy, at_origin) = (via_proxy.iter().filter(|l| l.contains(&tag)).count(), direct.iter().filter(|l| l.contains(&tag)).count());
+            if chain[k] { assert!(at_origin == 1 && at_proxy == 0, "hop {} names a host on the no-proxy list and must go direct, once: proxy saw {:?}, origin saw {:?} ({})", k, via_proxy, direct, ctx); }
+            else { assert!(at_proxy == 1 && at_origin == 0, "hop {} names a host the proxy is configured for and must go through it, once: proxy saw {:?}, origin saw {:?} ({})", k, via_proxy, direct, ctx); }
+        }
+        assert!(r.is_ok(), "{}: {:?}", ctx, r.err());
+    } }
+    println!("VP-NATIVE proxy_choice_on_every_hop cases={}", cases);
+}
+
 /// C02: a body whose framing is incomplete because the server stopped sending (the read times out) is never reported as complete,
 /// whichever way the caller reads it: the convenience readers return Err, a read loop ends in an error, and what was handed
 /// out before is a prefix of the payload
@@ -1248,7 +1290,9 @@ fn vp_native_connect_refusals_body() {
         let (with_cl, blen) = shapes[si % shapes.len()];
         let (origin, authority) = origins[si % origins.len()];
         // credentials whose base64 form needs the characters in which the alphabets differ ("bob:p~ss" -> Ym9iOnB+c3M=)
-        for cred in [Some("pu:pw"), Some("bob:p~ss"), Some("~~~:~~"), None] {
+        // ... and credentials that are a password only, or a user name only (with the empty reply shape, to keep the count down)
+        for cred in [Some("pu:pw"), Some("bob:p~ss"), Some("~~~:~~"), None, Some(":secret"), Some("solo")] {
+            if matches!(cred, Some(":secret") | Some("solo")) && !(with_cl && blen == 0) { continue; }
             let creds = cred.is_some();
             let log = Arc::new(Mutex::new(Vec::new()));
             let body = "x".repeat(blen);
@@ -1269,7 +1313,8 @@ fn vp_native_connect_refusals_body() {
             if let Some(c) = cred {
                 // the value is compared as it is (base64 is case sensitive), with an independent standard-alphabet encoder
                 let value = seen[0].head.lines().find(|l| l.to_ascii_lowercase().starts_with("proxy-authorization:")).map(|l| l[20..].trim().to_string());
-                assert_eq!(value, Some(format!("Basic {}", b64(c.as_bytes()))), "Proxy-Authorization derived from the proxy URL's credentials {:?}: {} head {:?}", c, ctx, seen[0].head);
+                let userpass = if c.contains(':') { c.to_string() } else { format!("{}:", c) };
+                assert_eq!(value, Some(format!("Basic {}", b64(userpass.as_bytes()))), "Proxy-Authorization derived from the proxy URL's credentials {:?}: {} head {:?}", c, ctx, seen[0].head);
             }
             assert!(seen[0].raw_after_head.is_empty() && seen[0].body.is_empty(), "client wrote {} bytes to the proxy after a {} reply", seen[0].raw_after_head.len() + seen[0].body.len(), status);
             match e.map_err(|e| e.into_kind()) {
